@@ -16,7 +16,7 @@ import (
 // C02 — tamper sweep.  Every line is its own case:
 //
 //	tam <xx|ik> <msg> <kind>       one handshake with message <msg> (c2s0, s2c0, c2s1, s2c1, c2s2) changed:
-//	      none | flip:<field>:<permille>:<mask> | trunc:<field>:<permille> | ext:<n> | prime:<cut> | splice
+//	      none | flip:<field>:<permille>:<mask> | trunc:<field>:<permille> | ext:<n> | prime:<cut> | splice | zerocut:<k>
 //	      -> c=<client ok> h=<handle offered> k=<equal keys> d=<directions differ>
 //	sweep <xx|ik> <msg> <mask> <stride> <phase>    one handshake per byte offset ≡ phase (mod stride)
 //	      -> bad=<handshakes in which the receiver completed>
@@ -70,6 +70,10 @@ func gen(g *GenCtx) {
 				}
 			}
 			emit("tam %s %s splice", mode, msg)
+			if msg == "s2c0" {
+				// the client reads its first answer into a zeroed buffer: cut a trailing zero byte
+				emit("tam %s %s zerocut:1", mode, msg)
+			}
 			if g.Thorough() {
 				for _, m := range masks {
 					for ph := 0; ph < 8; ph++ {
@@ -170,7 +174,40 @@ func (t *tamper) hook(dir string, idx int, data []byte) [][]byte {
 	return [][]byte{data}
 }
 
+// runZeroCut repeats handshakes until the message ends in k zero bytes, and cuts exactly those off:
+// a receiver that reads beyond the datagram into a zeroed buffer cannot tell.
+func runZeroCut(mode, msg string, k int) string {
+	sc := hs.Scenario{Hidden: mode == "ik", Policy: "store", ServerAdv: "ok", ClientAdv: "ok"}
+	for try := 0; try < 20000; try++ {
+		hit := false
+		hook := func(dir string, idx int, data []byte) [][]byte {
+			if fmt.Sprintf("%s%d", dir, idx) != msg || len(data) <= k {
+				return [][]byte{data}
+			}
+			for _, b := range data[len(data)-k:] {
+				if b != 0 {
+					return nil // not this time: drop it, the handshake is abandoned
+				}
+			}
+			hit = true
+			return [][]byte{data[:len(data)-k]}
+		}
+		r := hs.Run(sc, hook)
+		if hit {
+			return fmt.Sprintf("c=%d h=%d k=%d d=%d", b(r.ClientOK), b(r.Handle), b(r.KeysEq), b(r.DirsDiff))
+		}
+	}
+	return "no-zero-tail-found"
+}
+
 func runTam(mode, msg, kind string) string {
+	if strings.HasPrefix(kind, "zerocut:") {
+		k, _ := strconv.Atoi(kind[8:])
+		if k < 1 || k > 2 {
+			return "bad-op"
+		}
+		return runZeroCut(mode, msg, k)
+	}
 	sc := hs.Scenario{Hidden: mode == "ik", Policy: "store", ServerAdv: "ok", ClientAdv: "ok"}
 	t := &tamper{mode: mode, msg: msg, kind: kind}
 	sv, kemPub, _ := hs.BuildServer(sc)
